@@ -161,8 +161,20 @@ func TestC16ParseIllFormed(t *testing.T) {
 	rapid.Check(t, func(t *rapid.T) {
 		var in string
 		var want error
-		kind := rapid.SampledFrom([]string{"noscheme", "unknown", "emptyendpoint", "pathontcp"}).Draw(t, "kind")
+		kind := rapid.SampledFrom([]string{"noscheme", "unknown", "nearscheme", "emptyendpoint", "pathontcp"}).Draw(t, "kind")
 		switch kind {
+		case "nearscheme":
+			// one step away from a supported scheme: extra or repeated family digits, a letter more or less
+			base := rapid.SampledFrom([]string{"tcp", "udp", "unix", "tcp4", "tcp6", "udp4", "udp6"}).Draw(t, "base")
+			sch := base + rapid.SampledFrom([]string{"4", "6", "46", "64", "44", "66", "444", "s", "x", "5", "0", "-", "."}).Draw(t, "suffix")
+			if rapid.IntRange(0, 5).Draw(t, "cut") == 0 {
+				sch = base[:len(base)-1]
+			}
+			if c16supported(sch) {
+				sch += "x"
+			}
+			in = c16mixCase(t, sch) + "://" + rapid.SampledFrom([]string{"127.0.0.1:80", "[::1]:80", "h:1", "/tmp/a.sock", ":9000"}).Draw(t, "rest")
+			want = errorx.ErrUnsupportedProtocol
 		case "noscheme":
 			// no colon at all: url.Parse accepts it with an empty scheme
 			in = rapid.StringMatching(`[a-zA-Z0-9._-]{0,12}(/[a-zA-Z0-9._-]{1,6}){0,2}`).Draw(t, "s")
